@@ -66,8 +66,7 @@ KEEP_GOING = False
 OBJNAME_SHARE = (3, 6)
 PCH_SHARE = {1: 'object', 4: 'string', 6: 'object'}
 EXTRA_COVERAGE = {'backends': ['make', 'ninja (vf/ref/refninja.py)'],
-                  'compilers': lambda tier: ['gcc', 'g++'] + (['clang', 'clang++']
-                                                              if tier == 'thorough' else [])}
+                  'compilers': ['gcc', 'g++', 'clang', 'clang++']}
 # edits that make a file named in the previous depfiles vanish share their root causes
 KIND_CLASS = {'mod_pch': 'pch-header-modified', 'del_header': 'header-gone', 'rename_header': 'header-gone',
               'move_header': 'header-gone', 'mod_header': 'header-modified',
@@ -537,7 +536,8 @@ def cases(tier, seed):
         rng = core.rng_for(seed, 'c07', i)
         lang = ('c', 'c++')[i % 2] if quick else rng.choice(['c', 'c++'])
         if quick:
-            compiler = 'gcc'
+            # two of the three PCH projects (string form, object form) are built with clang
+            compiler = 'clang' if i in (4, 6) else 'gcc'
         else:
             compiler = 'clang' if i % 3 == 2 else 'gcc'
         p_special = [0.0, 0.35, 0.6, 0.35][i % 4]
@@ -749,6 +749,8 @@ def fail_reason(out):
         return 'ninja-missing-input'
     if 'depfile' in o and ('expected' in o or 'ninja: error' in o):
         return 'ninja-depfile'
+    if 'since the precompiled header' in o or 'precompiled header' in o and 'out of date' in o:
+        return 'stale-pch'
     if re.search(r'ld: cannot find [^\n]*\.o: No such file', o):
         return 'linker-cannot-find-object'
     if 'No such file or directory' in o and ('fatal error' in o or 'error:' in o):
@@ -1063,7 +1065,10 @@ def run_history(case, st, hist, res, count=True, keep_going=False):
                         res.classes.add('chars:' + show(chars))
                 if rc != 0:
                     fail(idx, kind, 'build-failed', edited_for_class, reason=fail_reason(out),
-                         output=out[-1500:], op=op)
+                         output=out[-1500:], op=op, compiled=ob.compiled,
+                         # the PCH had to be recompiled for this edit and was not
+                         pch_related=kind != 'clean' and 'pch' in must and
+                         'pch' not in ob.compiled)
                 if kind == 'noop':
                     ev('builds:noop')
                     n = len(ob.compiled) + ob.links + ob.archives + ob.other
